@@ -77,6 +77,12 @@ pub fn load_known(verif_dir: &str) -> Vec<KnownFinding> {
     v
 }
 
+/// where evidence and replay files go (VERIF_OUT overrides, used by the mutant runner so that
+/// runs against a deliberately broken tree do not overwrite the evidence of the real tree)
+pub fn out_dir(ctx: &Ctx) -> String {
+    std::env::var("VERIF_OUT").unwrap_or_else(|_| ctx.verif_dir.clone())
+}
+
 /// signatures are stored without spaces
 pub fn sig_key(s: &str) -> String {
     s.chars().map(|c| if c.is_whitespace() { '_' } else { c }).collect()
@@ -207,7 +213,7 @@ fn is_known(ctx: &Ctx, sig: &str) -> Option<String> {
 
 pub fn write_replay<C: Serialize>(ctx: &Ctx, part: &str, case: &C, sig: &str, msg: &str) -> (Value, String) {
     let case_v = serde_json::to_value(case).unwrap_or(Value::Null);
-    let dir = format!("{}/replays", ctx.verif_dir);
+    let dir = format!("{}/replays", out_dir(ctx));
     let _ = std::fs::create_dir_all(&dir);
     let path = format!("{}/{}-{}-{:08x}.json", dir, ctx.prop, part, hash_str(sig) as u32);
     let doc = json!({"property": ctx.prop, "part": part, "signature": sig, "message": msg, "case": case_v});
@@ -405,6 +411,14 @@ impl PropReport {
     pub fn violation(&self) -> Option<&ViolationReport> {
         self.parts.iter().find_map(|p| p.violation.as_ref())
     }
+    /// runs the next part unless an earlier part already found a violation (fail fast: a tree with a
+    /// shallow defect must not spend minutes in the later, more expensive parts)
+    pub fn part(&mut self, f: impl FnOnce() -> PartReport) {
+        if self.violation().is_none() {
+            let p = f();
+            self.parts.push(p);
+        }
+    }
 }
 
 /// writes evidence/<id>.json and prints the verdict lines; returns the process exit code
@@ -474,7 +488,7 @@ pub fn conclude(ctx: &Ctx, rep: &PropReport, wall_s: f64) -> i32 {
         "wall_s": (wall_s * 100.0).round() / 100.0,
         "violations": if viol.is_some() { 1 } else { 0 },
     });
-    let dir = format!("{}/evidence", ctx.verif_dir);
+    let dir = format!("{}/evidence", out_dir(ctx));
     let _ = std::fs::create_dir_all(&dir);
     let path = format!("{}/{}.json", dir, rep.prop);
     if let Err(e) = std::fs::write(&path, serde_json::to_string_pretty(&ev).unwrap()) {
